@@ -236,3 +236,182 @@ Example system_example_run :
            [Filter.VU256 12; Filter.VU64 2; Filter.VU64 3; Filter.VU64 4]) ]
   /\ map (fun x => (c_ig x, c_num x)) (d_curs d) = [(t_ig ca, 1); (t_ig ca, 2); (t_ig cb, 1); (t_ig cb, 2)].
 Proof. exact BridgeSystemP.ex_final. Qed.
+
+(* ======================================================================
+   ACROSS RESTARTS (Model/BridgeRestart.v, Proofs/BridgeRestartP.v).
+   Manager.Restart (C20) stops the runners of the old generation -- their open
+   transactions are rolled back, the database found is the last committed one
+   (C02 crash_is_rollback) -- and loads a new generation from the configuration
+   of the moment.  In the model: [sys_init] of the new task list on [s_db] of
+   the state the old generation was stopped in.
+   ====================================================================== *)
+From Shovel Require Proofs.BridgeRestartP.
+From Shovel Require Import Model.BridgeRestart.
+
+(* (g) ANY START STATE: (c) with the empty database replaced by any committed
+   database d0 in which every loaded task's pair holds the rendering of blocks
+   of ITS chain (C01's TaskInvG) and no row or cursor belongs to a pair of no
+   loaded task ([start_ok]).  Every visited state has the declared projections
+   AND satisfies [start_ok] again -- so the database any such run is stopped in
+   is a legitimate start for the same task list.  The premise is not implied
+   by anything below: the start state itself is visited. *)
+Theorem system_tables_from_any_start : forall w fs ds fi di ts d0,
+  (forall a b, w_enc w a = w_enc w b -> a = b) ->
+  Manager.load_tasks fs ds fi di = Outcome.Ok ts ->
+  world_ok w ts ->
+  (forall t, In t ts -> TaskInvG (sys_cfg w t) (chain_of w ts (sys_cfg w t)) d0) ->
+  owned_by (sys_cfgs w ts) d0 ->
+  forall sch, sched_growth (chain_of w ts) sch (sys_init (sys_cfgs w ts) d0) ->
+  forall st, In st (sys_states sch (sys_init (sys_cfgs w ts) d0)) ->
+  (forall t, In t ts ->
+     let c := sys_cfg w t in
+     let d := s_db st in
+     (d_rows (pv c d) = [] /\ d_curs (pv c d) = [])
+     \/ exists m k n h rows,
+          1 <= k /\ m + k <= N.of_nat (length (w_raw w (Manager.t_src t)))
+          /\ newest (t_src c) (t_ig c) (d_curs d) = Some (n, h) /\ n + 1 = m + k
+          /\ d_rows (pv c d)
+             = concat (map (declared_rows c (sys_decl w t) (sys_ctx t) (w_dbs w)) (rsegment (sys_rchain w t) m k))
+          /\ Rows.insert Rows.fixed (sys_decl w t) (sys_ctx t) (w_dbs w) (rsegment (sys_rchain w t) m k)
+             = Outcome.Ok rows
+          /\ map r_val (d_rows (pv c d)) = map enc_row rows)
+  /\ (forall t, In t ts -> TaskInvG (sys_cfg w t) (chain_of w ts (sys_cfg w t)) (s_db st))
+  /\ owned_by (sys_cfgs w ts) (s_db st).
+Proof. exact BridgeRestartP.from_any_start_flat. Qed.
+Print Assumptions system_tables_from_any_start.
+
+(* (h) ANY SEQUENCE OF GENERATIONS.  One world w (same declaration per
+   integration name, same canonical chain per source name in ALL generations:
+   chains grow inside a generation -- every version served is a prefix of
+   w_raw -- but w_raw itself is the same for all generations); a universe U of
+   tasks with pairwise distinct pairs ((i) below lets w_raw grow between
+   generations; a pair present in several generations
+   has the same start/stop/batch/chain id in all of them); a start database d0
+   with [univ_ok] (e.g. the empty one); generations gs, each one
+   [gen_ok]: loaded by the manager model from SOME configuration, tasks of U,
+   a growth schedule from the LAST COMMITTED database of the previous
+   generation ([gens_ok] threads [gen_end]).  Then for every generation g,
+   the database d it started on, and every state st it visits:
+   - d satisfies the invariant, st is a visited state of g started on d;
+   - EVERY task of U -- running in g or not -- has its table equal to the
+     declared projection (or empty);
+   - FRAME: every pair that is not a pair of a task of g -- in particular the
+     pairs of other generations -- has exactly the rows and cursors it had when
+     g started;
+   - the invariant holds in st; and it holds in the final database. *)
+Theorem generations_preserve_projections : forall w U,
+  (forall a b, w_enc w a = w_enc w b -> a = b) ->
+  NoDup (map pair_of (sys_cfgs w U)) -> world_ok w U ->
+  forall gs d0, univ_ok w U d0 -> gens_ok w U gs d0 ->
+  (forall g d st, In (g, d, st) (gens_visited w gs d0) ->
+     univ_ok w U d
+     /\ In st (sys_states (g_sched g) (sys_from w (g_tasks g) d))
+     /\ (forall t, In t U -> declared_projection_of w t (s_db st))
+     /\ (forall s i, ~ In (s, i) (map pair_of (sys_cfgs w (g_tasks g))) ->
+           restrict s i (s_db st) = restrict s i d)
+     /\ univ_ok w U (s_db st))
+  /\ univ_ok w U (gens_end w gs d0).
+Proof. exact BridgeRestartP.gens_lemma. Qed.
+Print Assumptions generations_preserve_projections.
+
+(* the empty database is a start for every universe *)
+Theorem empty_database_is_a_start : forall w U, univ_ok w U (Db [] []).
+Proof. exact BridgeRestartP.empty_univ_ok. Qed.
+Print Assumptions empty_database_is_a_start.
+
+(* task level: the invariant of a pair survives an extension of its chain
+   (what (i) below rests on) *)
+Theorem growth_invariant_survives_chain_extension : forall c canon ext d,
+  TaskInvG c canon d -> TaskInvG c (canon ++ ext) d.
+Proof. exact BridgeRestartP.TaskInvG_chain_ext. Qed.
+Print Assumptions growth_invariant_survives_chain_extension.
+
+(* (i) GENERATIONS WITH GROWING CHAINS: (h) where every generation has its own
+   world w', equal to the previous generation's except that every source's
+   canonical chain is an EXTENSION of the previous one's ([raw_prefix]; names,
+   ids, declarations, referenced tables unchanged), [world_ok w' U] asked of
+   every generation's world.  Same conclusions, each stated in the world of
+   the generation the state belongs to. *)
+Theorem generations_with_growing_chains : forall U gs w d0,
+  (forall a b, w_enc w a = w_enc w b -> a = b) ->
+  NoDup (map pair_of (sys_cfgs w U)) ->
+  univ_ok w U d0 -> gens_ok_grow w U gs d0 ->
+  forall w' g d st, In (w', g, d, st) (gens_visited_grow gs d0) ->
+    univ_ok w' U d
+    /\ In st (sys_states (g_sched g) (sys_from w' (g_tasks g) d))
+    /\ (forall t, In t U -> declared_projection_of w' t (s_db st))
+    /\ (forall s i, ~ In (s, i) (map pair_of (sys_cfgs w' (g_tasks g))) ->
+          restrict s i (s_db st) = restrict s i d)
+    /\ univ_ok w' U (s_db st).
+Proof. exact BridgeRestartP.gens_grow_lemma. Qed.
+Print Assumptions generations_with_growing_chains.
+
+(* the premise [gen_ok] is satisfiable for every accepted configuration whose
+   tasks are in U, from EVERY start database and for every order of moves,
+   deaths and faults (connection ids distinct) *)
+Theorem generation_schedules_exist : forall w U fs ds fi di ts who d,
+  (forall a b, w_enc w a = w_enc w b -> a = b) ->
+  Manager.load_tasks fs ds fi di = Outcome.Ok ts -> incl ts U -> world_ok w U ->
+  NoDup (map (w_id w) ts) ->
+  gen_ok w U (gen_of w ts who d) d.
+Proof. exact BridgeRestartP.gen_of_ok. Qed.
+Print Assumptions generation_schedules_exist.
+
+(* non-vacuity: the two-integration system of system_example_run, three
+   generations: (1) both tasks, stopped after 32 moves with block 1 committed
+   by both and both in the middle of a transaction (discarded); (2) the
+   configuration has integration "a" disabled: only task "b" is loaded, runs to
+   the end, the pair of "a" is untouched; (3) "a" enabled again: both tables
+   end up as the declared projections of blocks 1..2, pair by pair the same
+   database as the uninterrupted run of system_example_run *)
+Example restart_example_hypotheses :
+  (forall a b, w_enc ex_world a = w_enc ex_world b -> a = b)
+  /\ NoDup (map pair_of (sys_cfgs ex_world ex_loaded))
+  /\ world_ok ex_world ex_loaded
+  /\ univ_ok ex_world ex_loaded ex_d0
+  /\ gens_ok ex_world ex_loaded ex_gens ex_d0.
+Proof. exact BridgeRestartP.ex_restart_hyps. Qed.
+Example restart_example_run :
+  let ca := sys_cfg ex_world ex_ta in
+  let cb := sys_cfg ex_world ex_tb in
+  let pa := concat (map (declared_rows ca ex_decl (sys_ctx ex_ta) []) (rsegment (sys_rchain ex_world ex_ta) 1 1)) in
+  let pb := concat (map (declared_rows cb ex2_decl (sys_ctx ex_tb) []) (rsegment (sys_rchain ex_world ex_tb) 1 1)) in
+  let fa := concat (map (declared_rows ca ex_decl (sys_ctx ex_ta) []) (rsegment (sys_rchain ex_world ex_ta) 1 2)) in
+  let fb := concat (map (declared_rows cb ex2_decl (sys_ctx ex_tb) []) (rsegment (sys_rchain ex_world ex_tb) 1 2)) in
+  g_tasks ex_g1 = [ex_ta; ex_tb] /\ g_tasks ex_g2 = [ex_tb] /\ g_tasks ex_g3 = [ex_ta; ex_tb]
+  /\ length (g_sched ex_g1) = 32%nat
+  /\ open_tx (sys_run (g_sched ex_g1) (sys_from ex_world ex_loaded ex_d0)) = [true; true]
+  /\ d_rows (pv ca ex_d1) = pa /\ d_rows (pv cb ex_d1) = pb /\ pa <> [] /\ pb <> []
+  /\ pv ca ex_d2 = pv ca ex_d1 /\ d_rows (pv cb ex_d2) = fb
+  /\ d_rows (pv ca (gens_end ex_world ex_gens ex_d0)) = fa
+  /\ d_rows (pv cb (gens_end ex_world ex_gens ex_d0)) = fb
+  /\ length (d_rows (gens_end ex_world ex_gens ex_d0)) = (length fa + length fb)%nat
+  /\ map (fun x => (c_ig x, c_num x)) (d_curs (gens_end ex_world ex_gens ex_d0))
+     = [(t_ig ca, 1); (t_ig cb, 1); (t_ig cb, 2); (t_ig ca, 2)]
+  /\ pv ca (gens_end ex_world ex_gens ex_d0) = pv ca (s_db (sys_run ex_sched (sys_start ex_world ex_loaded)))
+  /\ pv cb (gens_end ex_world ex_gens ex_d0) = pv cb (s_db (sys_run ex_sched (sys_start ex_world ex_loaded))).
+Proof. exact BridgeRestartP.ex_restart_run. Qed.
+
+(* non-vacuity of (i): generation 1 in a world whose source has blocks 0..1
+   only, indexes block 1 in both tables; the chain grows to blocks 0..2;
+   generation 2 indexes block 2: both tables = declared projections of 1..2 *)
+Example growing_example_hypotheses :
+  (forall a b, w_enc ex_world1 a = w_enc ex_world1 b -> a = b)
+  /\ NoDup (map pair_of (sys_cfgs ex_world1 ex_loaded))
+  /\ univ_ok ex_world1 ex_loaded ex_d0
+  /\ gens_ok_grow ex_world1 ex_loaded ex_grow ex_d0.
+Proof. exact BridgeRestartP.ex_grow_hyps. Qed.
+Example growing_example_run :
+  let ca := sys_cfg ex_world ex_ta in
+  let cb := sys_cfg ex_world ex_tb in
+  d_rows (pv ca ex_e1)
+  = concat (map (declared_rows ca ex_decl (sys_ctx ex_ta) []) (rsegment (sys_rchain ex_world1 ex_ta) 1 1))
+  /\ d_rows (pv cb ex_e1)
+  = concat (map (declared_rows cb ex2_decl (sys_ctx ex_tb) []) (rsegment (sys_rchain ex_world1 ex_tb) 1 1))
+  /\ length (d_rows ex_e1) = 2%nat
+  /\ d_rows (pv ca ex_e2)
+  = concat (map (declared_rows ca ex_decl (sys_ctx ex_ta) []) (rsegment (sys_rchain ex_world ex_ta) 1 2))
+  /\ d_rows (pv cb ex_e2)
+  = concat (map (declared_rows cb ex2_decl (sys_ctx ex_tb) []) (rsegment (sys_rchain ex_world ex_tb) 1 2))
+  /\ length (d_rows ex_e2) = 4%nat.
+Proof. exact BridgeRestartP.ex_grow_run. Qed.
